@@ -443,3 +443,8 @@ mod test {
         assert_eq!(filtered, vec![expected_1, expected_2]);
     }
 }
+
+#[cfg(kani)]
+pub(crate) mod verif {
+    include!(concat!(env!("LIBP2P_VERIF"), "/hooks/autonat_as_server.rs"));
+}
